@@ -217,6 +217,28 @@ def drive_case(case):
     }
 
 
+def _one_from_stdin():
+    case = json.load(sys.stdin)
+    print("\n" + json.dumps(drive_case(case)))
+
+
+def _drive_each_in_new_process(cases):
+    """One interpreter per case: nothing but the case's own history has happened in the process."""
+    from concurrent.futures import ThreadPoolExecutor
+    from .. import tlc
+
+    def one(c):
+        p = subprocess.run([sys.executable, "-c", "from harness.props.c15 import _one_from_stdin; _one_from_stdin()"],
+                           input=json.dumps(c), capture_output=True, text=True, cwd=VERIF,
+                           env=dict(os.environ, PYTHONPATH=VERIF + os.pathsep + REPO))
+        if p.returncode != 0:
+            raise tlc.MachineryError("interpreter for a single case failed: " + p.stderr[-1000:])
+        return json.loads(p.stdout.strip().splitlines()[-1])
+
+    with ThreadPoolExecutor(max_workers=min(16, os.cpu_count() or 4)) as ex:
+        return list(ex.map(one, cases))
+
+
 def run(tier: str, seed: int) -> int:
     chk = Check("C15", tier, seed, "model_checking")
     chk.model_check("MC_PipelineObjects", "MC_PipelineObjects.cfg" if tier == "quick" else "MC_PipelineObjects_thorough.cfg")
@@ -246,7 +268,8 @@ def run(tier: str, seed: int) -> int:
     cases = chk.generate("Gen_C15")
     for c in cases:
         c["_fresh"] = fresh
-    obs = drive("harness.props.c15", "drive_case", cases, chunk=100)
+    obs = drive("harness.props.c15", "drive_case", [c for c in cases if not c.get("newproc")], chunk=100)
+    obs += _drive_each_in_new_process([c for c in cases if c.get("newproc")])
     verdicts = chk.judge("Judge_C15", obs)
     from .. import corrupt as _corrupt
 
